@@ -12,6 +12,7 @@
     value changes are the documented ones. The differential cases (Codec/CodecCases.v) tie
     (2) to the running code: real bytes = the table's encoder output. *)
 From Coq Require Import NArith String List Bool.
+From P9V Require Loop.Tie.
 From P9V Require Import Codec.Layout Codec.LayoutProofs Codec.Frame Codec.FrameProofs
   Codec.Spec9P Codec.SpecProofs Codec.Reuse Codec.GenCheck gen.CodecGen.
 Import ListNotations.
@@ -183,3 +184,14 @@ Example C01_ex_rreaddir :
   mwf (layout_of_typ 41) ex_rreaddir = true /\
   match mv_pay (mnorm (layout_of_typ 41) ex_rreaddir) with PVDirents c rows => c = 51 /\ List.length rows = 2%nat | _ => False end.
 Proof. exact ex_rreaddir_truncated. Qed.
+
+(** "every reply the server can produce is laid out on the wire as size[4] type[1] tag[2] ..." presupposes that
+    the server's byte stream IS a sequence of frames: send writes a frame as several vectors (header, fixed
+    part, payload), so two replies written at once would interleave.  Read from p9/server.go on every run
+    (gen/LoopGen.v, Loop/Tie.v; the interleaving theorem itself is C06_contiguous): every send of a reply --
+    the Rlerror of the receive path included -- happens inside connState.sendMu, and nothing outside
+    handleRequest sends. *)
+Theorem C01_replies_are_whole_frames :
+  P9V.Loop.Tie.send_under_sendMu = true /\ P9V.Loop.Tie.sends_only_in_handleRequest = true.
+Proof. exact (conj P9V.Loop.Tie.tie_send_under_sendMu P9V.Loop.Tie.tie_sends_only_in_handleRequest). Qed.
+Print Assumptions C01_replies_are_whole_frames.
